@@ -18,14 +18,14 @@ from ..util import result, rng_for, viol
 
 ID = "C19"
 RULE = (
-    "exhaustive: every loss history over the ordered alphabet {1,2,3} up to length 8 (thorough; 5 quick), with and "
+    "exhaustive: every loss history over the ordered alphabet {0,1,2,3} (0 = a model that fits exactly) up to length 7 (thorough; 5 quick), with and "
     "without the initial None call the training loop makes, x patience 0..3 x min_delta {0,0.5,1.0(,1.5)} x monitored {train,val} "
     "x representation {float, numpy.float32, numpy.float64, 0-d jax array}; EpochStop for epochs 0..5; real ml.train "
     "runs (TrainLoss, ValLoss, EpochStop) on a tiny model with non-improving losses. A case = one configuration with all "
     "its histories; non-trivial: >=1 history in which the reference stops; distinct by configuration. evaluations = stop() calls monitored."
 )
 EXHAUSTIVE = {"quick": True, "thorough": True}
-ASSUMPTIONS = ["automaton vmon/ref/misc.py:PatienceAutomaton written from the statement", "losses over {1,2,3} and min_delta 0.5 are exact in every representation"]
+ASSUMPTIONS = ["automaton vmon/ref/misc.py:PatienceAutomaton written from the statement", "losses over {0,1,2,3} and min_delta in {0,0.5,1,1.5} are exact in every representation"]
 ANCHORS = [
     "ginjax.ml.stopping_conditions:TrainLoss.stop",
     "ginjax.ml.stopping_conditions:ValLoss.stop",
@@ -37,7 +37,8 @@ WORKERS = {"quick": 8, "thorough": 16}
 TIMEOUT = {"quick": 900, "thorough": 3600}
 
 REPS = {"quick": ["float", "jax", "np32"], "thorough": ["float", "np32", "np64", "jax"]}
-MAXLEN = {"quick": 5, "thorough": 8}
+MAXLEN = {"quick": 5, "thorough": 7}
+LEVELS = (0, 1, 2, 3)  # 0 is a legitimate loss (a model that fits exactly)
 
 
 def cases(tier, seed):
@@ -55,6 +56,9 @@ def cases(tier, seed):
     for j, (cls, n) in enumerate(real):
         for model in (["scale"] if tier == "quick" or j >= 4 else ["scale", "conv"]):
             out.append({"kind": "real", "cls": cls, "n": n, "model": model, "lr": [0.0, 1e-7][j % 2]})
+    # a model that fits its data exactly: the monitored loss is exactly 0 in every epoch (still a non-improving history)
+    out.append({"kind": "real", "cls": "TrainLoss", "n": 1, "model": "scale", "lr": 0.0, "exact_fit": True})
+    out.append({"kind": "real", "cls": "ValLoss", "n": 0, "model": "scale", "lr": 0.0, "exact_fit": True})
     # histories that improve for a while and then plateau (the loss cannot reach 0): the stop epoch is whatever the
     # automaton derives from the observed losses, the returned model must be the one of the best epoch
     for j, (cls, n) in enumerate([("TrainLoss", 1), ("ValLoss", 0)] + ([("TrainLoss", 3), ("ValLoss", 2), ("TrainLoss", 0)] if tier == "thorough" else [])):
@@ -143,12 +147,12 @@ def make_rep(rep):
     import jax.numpy as jnp
 
     if rep == "float":
-        return {v: float(v) for v in (1, 2, 3)}
+        return {v: float(v) for v in LEVELS}
     if rep == "np32":
-        return {v: np.float32(v) for v in (1, 2, 3)}
+        return {v: np.float32(v) for v in LEVELS}
     if rep == "np64":
-        return {v: np.float64(v) for v in (1, 2, 3)}
-    return {v: jnp.asarray(float(v)) for v in (1, 2, 3)}
+        return {v: np.float64(v) for v in LEVELS}
+    return {v: jnp.asarray(float(v)) for v in LEVELS}
 
 
 def run(case, ctx):
@@ -170,7 +174,7 @@ def run_hist(case, ctx):
     viols, calls, n_hist, n_stop = [], 0, 0, 0
     _mon.take()
     for L in range(1, case["maxlen"] + 1):
-        for hi, hist in enumerate(it.product((1, 2, 3), repeat=L)):
+        for hi, hist in enumerate(it.product(LEVELS, repeat=L)):
             n_hist += 1
             cond = cls(patience=case["patience"], min_delta=case["min_delta"])
             auto = rmisc.PatienceAutomaton(case["patience"], case["min_delta"])
@@ -243,9 +247,10 @@ def run_real(case, ctx):
     rng = rng_for(ctx["seed"], ID, case["i"])
     D, N, L = 2, 4, 4
     X = geom.MultiImage({(0, 0): jnp.asarray(rng.normal(size=(L, 1, N, N)).astype(np.float32))}, D, True)
-    Y = geom.MultiImage({(0, 0): 2.0 * X[(0, 0)] + 1.0}, D, True)
+    off = 0.0 if case.get("exact_fit") else 1.0
+    Y = geom.MultiImage({(0, 0): 2.0 * X[(0, 0)] + off}, D, True)
     VX = geom.MultiImage({(0, 0): jnp.asarray(rng.normal(size=(2, 1, N, N)).astype(np.float32))}, D, True)
-    VY = geom.MultiImage({(0, 0): 2.0 * VX[(0, 0)] + 1.0}, D, True)
+    VY = geom.MultiImage({(0, 0): 2.0 * VX[(0, 0)] + off}, D, True)
 
     class Scale(models.MultiImageModule):
         w: jax.Array
@@ -254,7 +259,7 @@ def run_real(case, ctx):
             return x * self.w, aux_data
 
     if case["model"] == "scale":
-        model = Scale(jnp.asarray(0.5))
+        model = Scale(jnp.asarray(2.0 if case.get("exact_fit") else 0.5))
     else:
         from ..ref import group as rgroup, invariant as rinv
 
@@ -305,7 +310,7 @@ def run_real(case, ctx):
                 viols.append(viol("stop-call-count", f"{cls}: training made {calls} stop() calls, the specification implies {expect_calls}", trace=tr))
             if returned is not auto.best_model:
                 viols.append(viol("best-model-mismatch", f"{cls}: ml.train did not return the model of the best epoch / last epoch", trace=tr))
-    key = {k: case.get(k) for k in ("cls", "n", "model", "lr", "improving")}
+    key = {k: case.get(k) for k in ("cls", "n", "model", "lr", "improving", "exact_fit")}
     return result({"kind": "real", **key}, viols, True, evals=calls, obs={"stop_calls": calls, "real_runs": 1}, hist={"cls": cls, "kind": "real", "rep": tr[-1]["rep"] if tr else "?"}, sample={"case": case, "trace": tr[:8]})
 
 
